@@ -514,6 +514,18 @@ func (s *Server) getWorkspaceResolved(docURI protocol.DocumentURI) *include.Reso
 	return s.GetResolved(docURI)
 }
 
+// resolvedPrimaryPath is the file the Primary journal of getWorkspaceResolved(docURI)
+// was read from: the workspace's root journal when the workspace tree is in use,
+// the document itself otherwise.
+func (s *Server) resolvedPrimaryPath(docURI protocol.DocumentURI) string {
+	if s.workspace != nil && s.workspace.GetResolved() != nil {
+		if root := s.workspace.RootJournalPath(); root != "" {
+			return root
+		}
+	}
+	return uriToPath(docURI)
+}
+
 func (s *Server) RootURI() string {
 	return s.rootURI
 }
